@@ -127,8 +127,29 @@ def runPar (j : Json) : Except String Json := do
   pure (Json.mkObj [("res", resJ pairsJ r),
                     ("store", match st with | none => .null | some l => pairsJ l)])
 
+/-- `"kind": "mcscan"`: `mc.scan_steady_state` -/
+def runMcScan (j : Json) : Except String (Except Err Json) := do
+  let c0 ← jContent (← field j "content")
+  let w := ssWorker (← jCfg (← field j "cfg"))
+  let samples ← jList (jPair jNat jRow) (← field j "rows")
+  let inner ← jList (jPair jNat jRow) (← field j "inner")
+  let assign ← jList jNat (fieldD j "assign" (.arr #[]))
+  let n ← jNat (fieldD j "n" (.num 1))
+  let y0 ← match fieldD j "y0" .null with
+    | .null => pure none
+    | v => do pure (some (← jRow v))
+  pure do
+    let c ← match y0 with
+      | none => pure c0
+      | some kv => updateVars c0 kv
+    let res ← mcScan shippedCopyFirst assign n w inner c samples
+    let rows := res.flatMap fun (lv : Label × List (List Rat × View)) =>
+      lv.2.map fun (kv : List Rat × View) => Json.arr #[natJ lv.1, .arr (kv.1.map ratJ).toArray, viewJ kv.2]
+    pure (Json.mkObj [("rows", .arr rows.toArray), ("caller", stateJ c)])
+
 def handle (j : Json) : Except String Json := do
   if (← jStr (fieldD j "what" (.str "scan"))) == "parallelise" then return (← runPar j)
+  if (← jStr (fieldD j "kind" (.str ""))) == "mcscan" then return resJ id (← runMcScan j)
   pure (resJ id (← runScan j))
 
 end Driver.H_c09
